@@ -410,7 +410,7 @@ func run(c *fw.Ctx) error {
 	c.Assumptions = []string{
 		"a chunk holds either declarations or statements (the interactive parser decides by the first token), so every cut separates the declarations from the statements of main",
 		"sessions never define func main (a later Eval would run it again - outside this property)",
-		"Globals() is compared on the model's package-level variables g0 g1 t arr, printed with fmt.Sprint",
+		"Globals() is compared on the model's package-level variables g0 g1 t arr, printed with fmt.Sprint (g0 is left out when a top-level statement of main declares a local g0: at the root level of a session that is a new symbol of that name; the package variable is then observed through printg() only)",
 	}
 	var behs []beh
 	if c.Replay != "" {
@@ -570,6 +570,9 @@ func run(c *fw.Ctx) error {
 				rep["files"] = splitFiles(j)
 			}
 			trig := "session " + form + " entry " + b.Entry
+			if len(shadowed(&b.Prog, map[string]string{"g0": ""})) == 0 {
+				trig += ", a top-level statement of main declares a local named like a package variable"
+			}
 			if b.Prog.Name != "" {
 				trig = "witness:" + b.Prog.Name
 			}
@@ -585,7 +588,7 @@ func run(c *fw.Ctx) error {
 				c.Fail(trig, stripPos(mode), rep)
 			case o.Stdout != wantOut:
 				c.Fail(trig, "final output differs", rep)
-			case form != "files" && !reflect.DeepEqual(o.Globals, want):
+			case form != "files" && !reflect.DeepEqual(shadowed(&b.Prog, o.Globals), shadowed(&b.Prog, want)):
 				// (Globals() lists the package evaluated by name "main": a package directory evaluated with
 				// EvalPath is not reported there; its final state is what the last line of main prints)
 				c.Fail(trig, "final globals differ", rep)
@@ -593,6 +596,25 @@ func run(c *fw.Ctx) error {
 		}
 	}
 	return nil
+}
+
+// shadowed drops g0 from a Globals() view when a top-level statement of main declares a local of
+// that name: evaluated as a chunk at the root level, the declaration makes a new symbol g0 (what
+// Globals() then shows), while the package variable - which the functions declared before keep
+// using and printg() prints - is not reachable by name any more. The output decides for it.
+func shadowed(p *gocore.Prog, g map[string]string) map[string]string {
+	for _, s := range p.Main {
+		if s.K == "def" && s.X() == "g0" {
+			r := map[string]string{}
+			for k, v := range g {
+				if k != "g0" {
+					r[k] = v
+				}
+			}
+			return r
+		}
+	}
+	return g
 }
 
 // stripPos removes "N:M: " positions from an error text.
